@@ -48,3 +48,43 @@ def run_store(ctx: Ctx, pid: str, seed_offset=0):
     replay_store(ctx, gen + sim, pid)
     # real cache pressure: 1 MB cache, ~450 kB trajectories => capacity 2 items (spec Cap = 2)
     replay_store(ctx, simcap, pid, big=True, cache_mb=1)
+    validate_repo_store_traces(ctx, pid)
+
+
+def validate_repo_store_traces(ctx: Ctx, pid: str):
+    """code -> spec: the repository's own storage tests, recorded per store file by
+    rec_store and validated by TLC against StoreTrace.tla."""
+    from .c18 import record_repo_tests
+
+    tests = ['tests/test_storage.py', 'tests/test_emissions_storage.py']
+    if not ctx.quick:
+        tests += ['tests/test_trajectory_simulation.py::test_trajectory_simulation_basic', 'tests/test_golden.py']
+    got = record_repo_tests(tests, 'store')
+    traces = []
+    for t in got.get('store', []):
+        by = {}
+        for e in t['ev']:
+            by.setdefault(e['key'], []).append({k: v for k, v in e.items() if k != 'key'})
+        for k, evs in by.items():
+            if k.startswith('file:') and k.endswith('.aeic-store'):
+                continue
+            traces.append({'t': f"{t['t']}|{k.split('/')[-1]}#{len(traces)}", 'ev': evs})
+    rej = tlc.validate_traces(ctx, 'store/StoreTrace', 'store/StoreTrace.cfg', traces, timeout=1800)
+    by = {t['t']: t for t in traces}
+    for r in rej:
+        t = by[r['t']]
+        k = r['matched']
+        nxt = t['ev'][k] if k < len(t['ev']) else {}
+        op = nxt.get('op')
+        prop = 'C08' if op == 'getflight' else ('C10' if (op == 'add' and nxt.get('ok') == 'no') else 'C07')
+        if prop == pid:
+            ctx.violation(
+                f'repo-trace:{op}:{nxt.get("ok")}',
+                f'recorded execution {r["t"]} is not a behaviour of Store.tla: event {k + 1} of {r["total"]} ({nxt}) cannot happen after {t["ev"][max(0, k - 3):k]}',
+                {'trace': t, 'matched': k},
+            )
+    for t in traces:
+        ctx.case_done({'repo-trace': t['t'], 'n': len(t['ev'])})
+    ctx.traces_validated += len(traces)
+    ctx.extra['repo_store_traces'] = len(traces)
+    ctx.extra['repo_store_trace_events'] = sum(len(t['ev']) for t in traces)
